@@ -373,6 +373,24 @@ def run_dag(case, p=None):  # noqa: C901, PLR0912, PLR0915
         else:
             cx.log(entry, want_names)
 
+    # ---- the same map request with None as the value of every provided name (a provided None is a value; a default of the
+    #      consumer must not replace it) - for pipelines that have defaults ------------------------------------------------
+    if vals and cx.cls != "free" and any(f.get("sigdef") or f.get("pfdef") for f in spec["funcs"]):
+        nones = dict.fromkeys(vals)
+        terms.LOG.clear()
+        try:
+            r = _quiet(p.map, dict(nones), parallel=False, storage="dict", output_names=set(s_objs), auto_subpipeline=any(n in prod for n in given))
+        except Exception as e:  # noqa: BLE001
+            cx.raised("map-none-values", e, cx.cls, front)
+        else:
+            if cx.answered("map-none-values", cx.cls):
+                for n in names:
+                    want = gen_dag.ref_eval(spec, n, nones).value
+                    if n not in r or r[n].output != want:
+                        cx.add({"kind": "value-mismatch" if n in r else "output-missing"},
+                               f"map-none-values: {cx.where()}: with None provided for {sorted(nones)}, {n} = {r[n].output if n in r else None!r}, the full pipeline gives {want!r}")
+                        break
+
     # ---- the same map request on a scoped copy, the inputs given per scope: {"s": {name: value}} -------
     if cx.cls != "free":
         terms.LOG.clear()
